@@ -165,8 +165,107 @@ def model_exprs(kind, hist, n):
     return exprs
 
 
+def shares(nm, other):
+    """where two noise-model objects alias each other (None if nowhere)"""
+    if other is nm:
+        return "the same NoiseModel object"
+    if other.processes is nm.processes:
+        return "the same process list"
+    for k, (a, b) in enumerate(zip(nm.processes, other.processes)):
+        if a is b:
+            return f"process dictionary {k} is shared"
+        for key in ("matrix",):
+            if key in a and key in b and isinstance(a[key], np.ndarray) and isinstance(b[key], np.ndarray) and a[key].size and np.shares_memory(a[key], b[key]):
+                return f"the matrix of process {k} is shared"
+        if isinstance(a.get("strength"), dict) and a.get("strength") is b.get("strength"):
+            return f"the strength description of process {k} is shared"
+    if getattr(nm, "scheduled_jumps", None) and other.scheduled_jumps is nm.scheduled_jumps:
+        return "the same scheduled-jump list"
+    for k, (a, b) in enumerate(zip(getattr(nm, "scheduled_jumps", []), getattr(other, "scheduled_jumps", []))):
+        if a is b:
+            return f"scheduled jump {k} is shared"
+    return None
+
+
+def alias_correspondence(ctx):
+    """ObjStore.v: simulator.run works on a sample of the caller's noise model; the sample is a fresh object (Copy), so writes and
+    prunings addressed to it never reach the caller.  Real NoiseModel.sample() + the same operation sequences on the real sample,
+    caller's and sample's strengths afterwards vs run_on_sample; and the object that run() hands to the front-ends is a sample."""
+    import mqt.yaqs.simulator as S
+    from mqt.yaqs.core.data_structures.networks import MPO, MPS
+    from mqt.yaqs.core.data_structures.noise_model import NoiseModel
+    from mqt.yaqs.core.data_structures.simulation_parameters import AnalogSimParams, Observable
+
+    names = ["pauli_x", "pauli_z", "lowering", "pauli_y", "raising"]
+    cases, exprs, impl = [], [], []
+    for k in range(ctx.scale(40, 400)):
+        m = int(ctx.rng.integers(1, 6))
+        strengths = [int(ctx.rng.choice([0, 0, 1, 2, 5, 8])) for _ in range(m)]
+        procs = [{"name": str(ctx.rng.choice(names)), "sites": [int(ctx.rng.integers(0, 3))], "strength": st / 16} for st in strengths]
+        if k % 5 == 0:
+            procs.append({"name": "crosstalk_xz", "sites": [0, 2], "strength": 0.0})
+            strengths.append(0)
+        sched = [{"time": 0.1, "sites": [0], "name": "pauli_x"}] if k % 4 == 0 else None
+        nm = NoiseModel(procs, scheduled_jumps=sched)
+        ops = []
+        for _ in range(int(ctx.rng.integers(1, 5))):
+            ops.append(("Prune",) if ctx.rng.random() < 0.5 else ("Write", int(ctx.rng.integers(0, len(strengths) + 1)), int(ctx.rng.integers(0, 9))))
+        sampled = nm.sample()
+        why = shares(nm, sampled)
+        for o in ops:
+            if o[0] == "Prune":
+                sampled.processes = [pr for pr in sampled.processes if pr["strength"] > 0]
+            elif o[1] < len(sampled.processes):
+                sampled.processes[o[1]]["strength"] = o[2] / 16
+        got = ([int(round(pr["strength"] * 16)) for pr in nm.processes], [int(round(pr["strength"] * 16)) for pr in sampled.processes])
+        impl.append((why, got))
+        gops = "; ".join("Prune fresh" if o[0] == "Prune" else f"Write fresh {o[1]}%nat {o[2]}%Z" for o in ops)
+        exprs.append(f"let h := run_on_sample [{g_list([str(x) + '%Z' for x in strengths])}] 0%nat (fun fresh => [{gops}]) in "
+                     f"(nth 0%nat h [], nth 1%nat h [])")
+        cases.append({"strengths_x16": strengths, "ops": [list(o) for o in ops]})
+    vals = common.coq_eval_sharded("From Coq Require Import List ZArith. Import ListNotations.\nFrom Yaqs Require Import Model.ObjStore.", exprs, tag="c20o")
+    for c, (why, got), v in zip(cases, impl, vals):
+        ctx.case(nontrivial_key=("alias", str(c)) if 0 in c["strengths_x16"] and any(x for x in c["strengths_x16"]) else None, validated=True)
+        ctx.count("alias_cases")
+        want = ([int(x) for x in v[0]], [int(x) for x in v[1]])
+        if why:
+            ctx.mismatch("NoiseModel.sample() vs ObjStore.Copy (a fresh object)", c, why, "no part of the sample is shared with the model it was drawn from", key="alias")
+        if got != want:
+            ctx.mismatch("writes addressed to the sampled noise model vs ObjStore.run_on_sample (caller's strengths, sample's strengths)", c,
+                         [list(got[0]), list(got[1])], [list(want[0]), list(want[1])], key="alias")
+    # what run() hands on is a sample, for every front-end
+    seen = {}
+    saved = (S._run_analog, S._run_circuit)  # noqa: SLF001
+
+    def grab(initial_state, operator, sim_params, noise_model, **kw):
+        seen["nm"] = noise_model
+
+    S._run_analog = S._run_circuit = grab  # noqa: SLF001
+    try:
+        from qiskit import QuantumCircuit
+
+        from mqt.yaqs.core.data_structures.simulation_parameters import StrongSimParams, WeakSimParams
+
+        nm = NoiseModel([{"name": "lowering", "sites": [0], "strength": 0.0}, {"name": "pauli_z", "sites": [1], "strength": 0.1}])
+        qc = QuantumCircuit(2)
+        qc.h(0)
+        for label, op, par in (("analog", MPO.ising(2, 1.0, 0.5), AnalogSimParams([Observable("z", 0)], elapsed_time=0.1, dt=0.1, show_progress=False)),
+                               ("strong", qc, StrongSimParams([Observable("z", 0)], show_progress=False)),
+                               ("weak", qc, WeakSimParams(shots=2, show_progress=False))):
+            seen.clear()
+            S.run(MPS(2), op, par, nm, parallel=False)
+            ctx.case(nontrivial_key=("handed-on", label), validated=True)
+            why = "no noise model reached the front-end" if seen.get("nm") is None else shares(nm, seen["nm"])
+            if why:
+                ctx.mismatch("the noise model handed to the front-end vs ObjStore.run_on_sample (a sample, not the caller's object)", {"front_end": label}, why,
+                             "a fresh sample", key="alias")
+    finally:
+        S._run_analog, S._run_circuit = saved  # noqa: SLF001
+
+
 def correspond(ctx):
     ctx.rules.append(RULE)
+    alias_correspondence(ctx)
     # layer sampling: the number of result columns of a run depends on the circuit of that run only (Params.run_layers)
     from drivers import C16
 
